@@ -738,11 +738,13 @@ def r_parsepath(ctx) -> RuleResult:
                         return True
         return False
     parse_nodes = []
+    parse_stmts = []
     for st in own_walk(fn):
         if isinstance(st, ast.stmt) and st is not fn and not isinstance(st, (ast.If, ast.For, ast.While, ast.Try, ast.With, ast.FunctionDef)) and reaches_start(ent, st):
             n = cfg.node_of(st) if cfg.node_of(st) is not None else cfg.stmt_node_containing(st)
             if n is not None:
                 parse_nodes.append(n)
+                parse_stmts.append(st)
     if not parse_nodes:
         raise AnalysisError(f"R-PARSEPATH: no statement of graph_from_tucan calls the start rule `{start}` of the generated parser (directly or through a helper)")
     rets = [r for r in own_walk(fn) if isinstance(r, ast.Return) and r.value is not None]
@@ -755,11 +757,148 @@ def r_parsepath(ctx) -> RuleResult:
         if p is not None:
             bad = (r, p)
             break
-    res.inst(ent.fq, f"every `return <graph>` is reached only through {len(parse_nodes)} statement(s) that run the start rule `{start}`", "fail" if bad else "ok")
     if bad:
+        # a second way to a graph exists.  It is a defect if it takes a string the grammar does not have (or refuses one the
+        # serializer writes): the entry point is followed on sample strings around the edge of the grammar's language.
         r, p = bad
+        wit, n_in, n_out = _bypass_witness(ctx, ent, parse_stmts, G, start)
+        res.counts = {"parse_statements": len(parse_nodes), "returns": len(rets), "sample_strings_outside_grammar": n_out, "sample_strings_inside_grammar": n_in}
+        if wit is None:
+            raise AnalysisError(f"R-PARSEPATH: `{short(r, 40)}` can be reached without running the generated parser's start rule `{start}` "
+                                f"({' ; '.join(cfg.describe(x) for x in p[1:])[:160]}); on {n_out} sample strings outside the grammar and {n_in} inside it that way "
+                                "agrees with the grammar, which does not show that it always does")
+        res.inst(ent.fq, f"every `return <graph>` is reached only through {len(parse_nodes)} statement(s) that run the start rule `{start}`", "fail")
         res.fail(Finding("R-PARSEPATH", ent.module.rel, ent.qualname, "path: " + " ; ".join(cfg.describe(x) for x in p[1:])[:300],
-                         f"a graph is handed back on a path that never runs the generated parser's start rule `{start}`: what is accepted on that path is decided by other code, "
-                         "not by the grammar (the equivalence EBNF = G4 = generated parser says nothing about it)", line=r.lineno))
+                         f"a graph is handed back on a path that never runs the generated parser's start rule `{start}`, and that path does not keep to the grammar: {wit}", line=r.lineno))
+        return res
+    res.inst(ent.fq, f"every `return <graph>` is reached only through {len(parse_nodes)} statement(s) that run the start rule `{start}`", "ok")
     res.counts = {"parse_statements": len(parse_nodes), "returns": len(rets)}
     return res
+
+
+_BASE_STRINGS = ["/", "CH4/", "ClH/", "CHCl3/(1-2)(1-3)(1-4)(1-5)", "C2H6O/(1-2)(2-3)(1-4)(1-5)(1-6)(2-7)(2-8)(3-9)", "H2O/(1-3)(2-3)/(1:mass=2)",
+                 "C2H6O/(1-2)(2-3)/(1:mass=13)(2:rad=3,mass=14)", "He//(1:mass=3)", "BrClFI/", "C12H26/(1-2)(2-13)(10-11)", "CBr4/(1-2)(1-3)(1-4)(1-5)", "H2/(1-2)"]
+
+
+def _edge_strings(det) -> tuple[list[str], list[str]]:
+    """sample strings: the base strings (inside the grammar's language) and their one-step changes that are outside it"""
+    import re as _re
+    out, seen = [], set()
+
+    def add(x):
+        if x not in seen and not det.accepts(x):
+            seen.add(x)
+            out.append(x)
+    for b in _BASE_STRINGS:
+        if not det.accepts(b):
+            continue
+        formula, _, rest = b.partition("/")
+        els = _re.findall(r"[A-Z][a-z]?[0-9]*", formula)
+        # order and repetition of the elements
+        for i in range(len(els) - 1):
+            add("".join(els[:i] + [els[i + 1], els[i]] + els[i + 2:]) + "/" + rest)
+        for i in range(len(els)):
+            add("".join(els[:i + 1] + [els[i]] + els[i + 1:]) + "/" + rest)
+            sym = _re.match(r"[A-Z][a-z]?", els[i]).group()
+            for cnt in ("1", "0", "01", "02"):
+                add("".join(els[:i] + [sym + cnt] + els[i + 1:]) + "/" + rest)
+            add("".join(els[:i] + [els[i].lower()] + els[i + 1:]) + "/" + rest)
+            add("".join(els[:i] + [els[i].upper()] + els[i + 1:]) + "/" + rest if els[i].upper() != els[i] else b + " ")
+        if els:
+            add("".join(els[1:] + els[:1]) + "/" + rest)
+            add("".join(reversed(els)) + "/" + rest)
+            add("".join(sorted(els, key=lambda e_: _re.match(r"[A-Z][a-z]?", e_).group())) + "/" + rest)
+        add("Xx" + b)
+        add("J" + b)
+        # characters around the string and inside it
+        for extra in ("\n", " ", "/", "x", ")", "("):
+            add(b + extra)
+            add(extra + b)
+        add(b.replace("/", "", 1))
+        add(b.replace("/", " /", 1))
+        add(b.replace("(", "( ", 1))
+        add(b.replace("-", " - ", 1))
+        add(b.replace("(", "", 1))
+        add(b.replace(")", "", 1))
+        add(b.replace(")(", ")()(", 1))
+        add(b.replace(")(", "),(", 1))
+        # numbers
+        for m in _re.finditer(r"[0-9]+", rest):
+            a0, a1 = m.span()
+            a0 += len(formula) + 1
+            a1 += len(formula) + 1
+            for repl in ("0", "0" + m.group(), "-" + m.group(), "+" + m.group(), m.group() + ".0", ""):
+                add(b[:a0] + repl + b[a1:])
+        # attribute keys and separators
+        for k in ("mass", "rad"):
+            if k + "=" in b:
+                for repl in ("chg=", k.upper() + "=", k + ":", k + " = ", k + "==", "iso=", k[:-1] + "="):
+                    add(b.replace(k + "=", repl, 1))
+        add(b.replace(":", "=", 1))
+        add(b.replace(",", ";", 1))
+        add(b.replace(",", ",,", 1))
+    inside = [b for b in _BASE_STRINGS if det.accepts(b)]
+    return inside, out
+
+
+def _bypass_witness(ctx, ent, parse_stmts, G, start):
+    """follow graph_from_tucan on sample strings with the statements that run the generated parser cut out (a path that
+    arrives there is the grammar's business).  -> (description of the first sample on which the other way hands back a graph
+    for a string outside the grammar, or raises for a base string inside it; number of samples inside; number outside)"""
+    import re as _re
+    from ..concrete import UNKNOWN, Opaque, PathEval, PState, _Unknown
+    from ..gram import det_of
+    from .readers import regex_of
+    det = det_of(G.ebnf, start, (), charlevel=True)
+    inside, outside = _edge_strings(det)
+    if len(inside) < 8 or len(outside) < 100:
+        raise AnalysisError(f"R-PARSEPATH: only {len(inside)} / {len(outside)} sample strings inside / outside the grammar (the grammar changed beyond what the samples were made for)")
+
+    def consts_of(f_):
+        out_ = {}
+        for nm in {x.id for x in ast.walk(f_.node) if isinstance(x, ast.Name)}:
+            if nm in params_of(f_.node):
+                continue
+            v = try_const(ctx, f_, ast.Name(nm, ast.Load()), default=None)
+            if v is not None:
+                out_.setdefault(nm, v)
+            else:
+                pat = regex_of(ctx, f_, ast.Name(nm, ast.Load()))
+                if pat is not None:
+                    try:
+                        out_.setdefault(nm, _re.compile(pat))
+                    except _re.error:
+                        pass
+        return out_
+    calls, classes = {}, set()
+    for f_ in ent.module.functions.values():
+        if f_.cls is None and "." not in f_.qualname and f_.fq != ent.fq:
+            calls[f_.name] = (f_.node, consts_of(f_))
+    for nm in {x.id for x in ast.walk(ent.module.tree) if isinstance(x, ast.Name)}:
+        r_ = ctx.repo.resolve_dotted(ent.module, ast.Name(nm, ast.Load()))
+        if r_ and r_[0] == "class":
+            classes.add(nm)
+    ps = params_of(ent.node)
+    if len(ps) != 1:
+        raise AnalysisError(f"R-PARSEPATH: {ent.qualname} no longer takes the string alone")
+
+    def outcome(text):
+        pe = PathEval(calls)
+        pe.opaque_classes = classes
+        pe.stop = {id(st_): "parse" for st_ in parse_stmts}
+        env = consts_of(ent)
+        env[ps[0]] = text
+        falls, lefts = pe.block(ent.node.body, [PState(env)])
+        hows = {how for _s, how, _v in lefts} | ({"falls"} if falls else set())
+        return hows, pe.gaps
+    # the evaluator must be able to follow the other way at all: a base string has to come out as 'return' or 'stop:parse'
+    for text in outside:
+        hows, gaps = outcome(text)
+        if hows == {"return"}:
+            return (f"the string {text!r} is not in the grammar's language, yet `{ent.name}` hands back a graph for it without asking the parser"
+                    + (f" (not read on the way: {gaps[0]})" if gaps else "")), len(inside), len(outside)
+    for text in inside:
+        hows, gaps = outcome(text)
+        if hows == {"raise"} and not gaps:
+            return f"the string {text!r} is in the grammar's language and names a molecule, yet it is rejected before the parser is asked", len(inside), len(outside)
+    return None, len(inside), len(outside)
